@@ -7,10 +7,16 @@
    their specifications, and the PathIterator on components (Next, the
    accessors, the sequence of parts, ReplacePart).  The two bounded statements
    (C13_clean_spec_bounded8, C13_join_spec_bounded4) are kept: they are now
-   instances of the unbounded ones.  For Rel, Match, Dir, Base and the Windows
-   flavour the claim rests on the differential run against the code and against
-   the host's path/filepath. *)
-From Avfs Require Import Base PathModel PathSpec PathBridge PathProofs PathCleanProofs PathIterProofs.
+   instances of the unbounded ones.  Windows flavour, last part of this file, ALL
+   byte strings: the shape of the volume name (Go 1.23's volumeNameLen), every
+   slice at VolumeNameLen is in range, IsAbs, the FromSlash/ToSlash laws, the
+   frame of Clean (volume-only inputs, no '/' left, the post-pass only prepends
+   `.\` or `\.`), Clean never returns "" (both OS types).  For Rel, Match, Dir,
+   Base and the body of the Windows Clean/Join the claim rests on the
+   differential run: code vs model vs Go's own path/filepath of the emulated OS
+   (the host's for the POSIX flavour, the toolchain's Windows sources retargeted
+   by lib/vcheck/winportgen.py for the Windows flavour). *)
+From Avfs Require Import Base PathModel PathSpec PathBridge PathProofs PathCleanProofs PathIterProofs PathWinProofs.
 
 Theorem C13_split_app : forall os p, fst (split os p) ++ snd (split os p) = p.
 Proof. exact split_app. Qed.
@@ -209,3 +215,103 @@ Example C13_example_iter :
   /\ new_comps [a] [c] [121%N; SLASH; 122%N] = [a; [121%N]; [122%N]; c]
   /\ fst (pi_replace_part Linux (on_comp ([a] ++ b :: [c]) [a] b) [121%N; SLASH; 122%N]) = false.
 Proof. exact pi_replace_part_example. Qed.
+
+(* ======================================================================== *)
+(* WINDOWS flavour (and facts for both OS types), ALL byte strings            *)
+(* ======================================================================== *)
+
+(* the volume is: nothing; a drive designator (ANY byte, then ':'); or a prefix that starts with a separator,
+   has at least two bytes and ends at the end of the path or right before a separator (UNC and device forms) *)
+Theorem C13_volume_windows_shape : forall p,
+  let n := volume_name_len Windows p in
+  n = 0
+  \/ (n = 2 /\ 2 <= length p /\ nthb p 1 = COLON)
+  \/ (is_slash (nthb p 0) = true /\ 2 <= n <= length p /\ (n = length p \/ is_slash (nthb p n) = true)).
+Proof. exact volume_name_len_windows_cases. Qed.
+
+(* path[:VolumeNameLen(path)] never slices out of range (Clean, Split, Dir, Base, Rel, VolumeName, SplitAbs,
+   NewPathIterator all do it), and VolumeName has that length *)
+Theorem C13_volume_len_in_range : forall os p,
+  volume_name_len os p <= length p /\ length (volume_name os p) = volume_name_len os p.
+Proof. exact volume_len_in_range. Qed.
+
+Theorem C13_volume_drive : forall c rest, volume_name_len Windows (c :: COLON :: rest) = 2.
+Proof. exact volume_drive. Qed.
+
+Theorem C13_volume_relative : forall p,
+  is_slash (nthb p 0) = false -> nthb p 1 <> COLON -> volume_name_len Windows p = 0.
+Proof. exact volume_relative. Qed.
+
+(* `\a...`: one leading separator followed by an ordinary byte is no volume *)
+Theorem C13_volume_rooted_only : forall c d rest,
+  is_slash d = false -> d <> COLON -> d <> QMARK -> volume_name_len Windows (c :: d :: rest) = 0.
+Proof. exact volume_rooted_only. Qed.
+
+Theorem C13_is_abs_windows : forall p,
+  is_abs Windows p = true <->
+  0 < volume_name_len Windows p
+  /\ ((is_slash (nthb p 0) = true /\ is_slash (nthb p 1) = true)
+      \/ (volume_name_len Windows p < length p /\ is_slash (nthb p (volume_name_len Windows p)) = true)).
+Proof. exact is_abs_windows. Qed.
+
+Theorem C13_is_abs_drive : forall c rest,
+  is_abs Windows (c :: COLON :: rest) = match rest with [] => false | s :: _ => is_slash s end.
+Proof. exact is_abs_drive. Qed.
+
+Theorem C13_is_abs_needs_volume : forall p, volume_name_len Windows p = 0 -> is_abs Windows p = false.
+Proof. exact is_abs_needs_volume. Qed.
+
+Theorem C13_slash_windows : forall p,
+  ~ In SLASH (from_slash Windows p) /\ ~ In BSLASH (to_slash Windows p)
+  /\ length (from_slash Windows p) = length p /\ length (to_slash Windows p) = length p
+  /\ map (is_sep Windows) (from_slash Windows p) = map (is_sep Windows) p
+  /\ map (is_sep Windows) (to_slash Windows p) = map (is_sep Windows) p
+  /\ from_slash Windows (to_slash Windows p) = from_slash Windows p
+  /\ to_slash Windows (from_slash Windows p) = to_slash Windows p
+  /\ from_slash Windows (from_slash Windows p) = from_slash Windows p.
+Proof. exact slash_windows. Qed.
+
+(* Clean of a path that is only a volume *)
+Theorem C13_clean_windows_volume_only : forall p,
+  skipn (volume_name_len Windows p) p = [] ->
+  clean Windows p = if Nat.ltb 1 (volume_name_len Windows p) && is_slash (nthb p 0) && is_slash (nthb p 1)
+                    then from_slash Windows p else p ++ [DOT].
+Proof. exact clean_windows_volume_only. Qed.
+
+(* ... of any other path: no '/' is left *)
+Theorem C13_clean_windows_no_slash : forall p,
+  skipn (volume_name_len Windows p) p <> [] -> ~ In SLASH (clean Windows p).
+Proof. exact clean_windows_no_slash. Qed.
+
+(* the post-pass of the Windows Clean only prepends `.\` or `\.` or nothing, is the identity for paths with a
+   volume and for unmodified paths, and prepends `.\` when a ':' shows before the first separator *)
+Theorem C13_post_clean : forall os vol_len path out,
+  (exists pre, lb_bytes path (post_clean os vol_len out) = pre ++ lb_bytes path out
+               /\ (pre = [] \/ pre = [DOT; sepc os] \/ pre = [sepc os; DOT]))
+  /\ (vol_len <> 0 \/ lb_buf out = None -> post_clean os vol_len out = out).
+Proof. exact post_clean_frame. Qed.
+
+Theorem C13_post_clean_colon : forall os path buf w,
+  colon_before_sep os buf = true ->
+  lb_bytes path (post_clean os 0 {| lb_buf := Some buf; lb_w := w |}) = DOT :: sepc os :: firstn w buf.
+Proof. exact post_clean_colon. Qed.
+
+(* Clean never returns the empty string *)
+Theorem C13_clean_nonempty : forall os p, clean os p <> [].
+Proof. exact clean_nonempty. Qed.
+
+(* a fresh PathIterator satisfies the hypothesis of C13_pi_reassemble / C13_pi_next_wf on both OS types *)
+Theorem C13_pi_new_wf : forall os p, pi_wf (pi_new os p).
+Proof. exact pi_new_wf. Qed.
+
+(* non-vacuity / witnesses: volumes of C:\a 1:a \\a\b\c \\.\C:\x \\?\UNC\a\b\c //./unc/a/b/c \??\C:\x \a \\a a\b;
+   `a/../c:` is cleaned to `.\c:`;  known finding C13-rel-unc-root-loop on the model *)
+Example C13_example_windows :
+  map (volume_name_len Windows)
+      [[67;58;92;97]; [49;58;97]; [92;92;97;92;98;92;99]; [92;92;46;92;67;58;92;120];
+       [92;92;63;92;85;78;67;92;97;92;98;92;99]; [47;47;46;47;117;110;99;47;97;47;98;47;99];
+       [92;63;63;92;67;58;92;120]; [92;97]; [92;92;97]; [97;92;98]]%N
+  = [2; 2; 5; 6; 7; 11; 6; 0; 3; 0]
+  /\ clean Windows [97;47;46;46;47;99;58]%N = [46;92;99;58]%N
+  /\ rel Windows [92;92;97;92;98]%N [92;92;97;92;98;92]%N = RelLoop.
+Proof. vm_compute. auto. Qed.
